@@ -600,6 +600,8 @@ class CallGraph:
                 for kw in c.keywords:
                     if kw.arg == pname:
                         a = kw.value
+                if isinstance(a, ast.Attribute) and a.attr == slot:
+                    continue  # the same slot of another instance (a copy made from an existing object): nothing new
                 r = self._callable_values(a, h, depth)
                 if r is None:
                     return None
